@@ -1130,7 +1130,7 @@ fn c18(cfg: &CCfg, e: &Exec, f: &Facts, vs: &mut Vec<Violation>, nt: &mut bool) 
         match m {
             Msg::Req { id, payload, tid, sid, sampled, .. } => {
                 let i = *payload as usize;
-                let want_tid = 100u128 + i as u128;
+                let want_tid = caller_tid(i);
                 let want_sampled = cfg.callers.get(i).map(|c| c.sampled).unwrap_or(false);
                 if *tid != want_tid || *sampled != want_sampled {
                     v(
@@ -1223,6 +1223,28 @@ pub fn configs(prop: CProp, tier: Tier) -> Vec<CCfg> {
                 callers[0].deadline_ms = 50;
                 out.push(base(callers, n, 1, Flavour::Coupled, 1, alpha | A_DRAIN));
             }
+            // handle topologies: the original handle, a clone of it that has itself been cloned,
+            // and that grandchild, each making a call (seeded change C01d: per-handle id blocks
+            // that overlap for a clone of a clone)
+            for hs in [
+                vec![Handle::Root, Handle::Middle],
+                vec![Handle::Middle, Handle::Root],
+                vec![Handle::Root, Handle::Middle, Handle::Grand],
+                vec![Handle::Grand, Handle::Middle, Handle::Root],
+                vec![Handle::Middle, Handle::Grand],
+                vec![Handle::Root, Handle::Own, Handle::CloneOfClone],
+            ] {
+                for mif in [1usize, 3] {
+                    for scripted in [false, true] {
+                        let mut callers: Vec<CallerCfg> = hs.iter().map(|h| CallerCfg { handle: *h, ..CallerCfg::simple(true) }).collect();
+                        if scripted {
+                            // the first call is abandoned after it was transmitted and answered late
+                            callers[0].script = Script::AbandonAfter(2);
+                        }
+                        out.push(base(callers, mif, 1, Flavour::Always, 1, alpha));
+                    }
+                }
+            }
         }
         CProp::C02 => {
             let alpha = A_REPLY_UNOWED | A_ABANDON | A_DRAIN | A_EOF | A_RERR | A_ADVANCE | A_DROPDISPATCH;
@@ -1292,6 +1314,24 @@ pub fn configs(prop: CProp, tier: Tier) -> Vec<CCfg> {
                                         }
                                     }
                                 }
+                            }
+                        }
+                    }
+                }
+            }
+            // transient transport faults around the cancellation: a Cancel whose write fails was
+            // not transmitted - either the connection is then reported lost or it is sent again
+            // (seeded change C03d: the write error was swallowed and the dispatch carried on)
+            if prop == CProp::C03 {
+                for (fl, cap) in [(Flavour::Always, 1usize), (Flavour::Coupled, 1)] {
+                    for n in 1..=2usize {
+                        for op in [Op::Send, Op::Ready, Op::Flush] {
+                            for k in 1..=4u32 {
+                                let mut callers: Vec<CallerCfg> = (0..n).map(|_| CallerCfg::simple(false)).collect();
+                                callers[0].script = Script::AbandonAfter(2);
+                                let mut c = base(callers, 2, 1, fl, cap, alpha);
+                                c.fault = Some(Fault { op, k, sticky: false, eof: false });
+                                out.push(c);
                             }
                         }
                     }
